@@ -502,6 +502,80 @@ func runC05(p *core.Prog, r *core.Report) {
 		}
 	}
 
+	// ---- R5 (cont.): the truncating reset `id = id[:k]` keeps the first k bytes as they are — the random prefix the
+	// constructor wrote. Nothing between Get and Put may write below k: an append onto id[:m] with m < k, an element
+	// store below k. (Otherwise the next request on this Store starts from the previous request's bytes.)
+	if idf != nil {
+		keep := int64(-1)
+		for _, fn := range allFns {
+			sx.Instrs(fn, func(in ssa.Instruction) {
+				st, ok := in.(*ssa.Store)
+				if !ok {
+					return
+				}
+				fa, ok := st.Addr.(*ssa.FieldAddr)
+				if !ok || sx.FieldOf(fa) != idf {
+					return
+				}
+				if sl, ok := st.Val.(*ssa.Slice); ok && sl.Low == nil && sl.High != nil && sx.Origins(sl.X)["field:Store."+idf.Name()] {
+					if k, isC := sx.ConstInt(sl.High); isC && k > keep {
+						keep = k
+					}
+				}
+			})
+		}
+		if keep > 0 {
+			var bad []string
+			for _, fn := range allFns {
+				if rootFn(sx.OrigFunc(fn)) == rootFn(ctor) {
+					continue
+				}
+				sx.Instrs(fn, func(in ssa.Instruction) {
+					switch x := in.(type) {
+					case *ssa.Call:
+						if !isBuiltin(x, "append") && !isBuiltin(x, "copy") {
+							return
+						}
+						base := x.Call.Args[0]
+						for d := 0; d < 4; d++ { // append(append(id[:0], …), …)
+							if inner, ok := base.(*ssa.Call); ok && isBuiltin(inner, "append") {
+								base = inner.Call.Args[0]
+							}
+						}
+						sl, ok := base.(*ssa.Slice)
+						if !ok || !sx.Origins(sl.X)["field:Store."+idf.Name()] {
+							return
+						}
+						m := int64(-1)
+						if sl.High != nil {
+							if k, isC := sx.ConstInt(sl.High); isC {
+								m = k
+							}
+						}
+						if isBuiltin(x, "copy") {
+							m = 0
+							if sl.Low != nil {
+								if k, isC := sx.ConstInt(sl.Low); isC {
+									m = k
+								}
+							}
+						}
+						if m >= 0 && m < keep {
+							bad = append(bad, fmt.Sprintf("%s writes the ID buffer from offset %d in %s at %s", x.Call.Value.Name(), m, fnName(fn), p.Pos(in.Pos())))
+						}
+					case *ssa.Store:
+						if ia, ok := x.Addr.(*ssa.IndexAddr); ok && sx.Origins(ia.X)["field:Store."+idf.Name()] {
+							if k, isC := sx.ConstInt(ia.Index); !isC || k < keep {
+								bad = append(bad, "element store into the ID buffer in "+fnName(fn)+" at "+p.Pos(in.Pos()))
+							}
+						}
+					}
+				})
+			}
+			r.Check(len(bad) == 0, "C05-R5", fmt.Sprintf("the %d bytes the reset keeps are never overwritten after construction", keep), "-", "every write to the ID buffer starts at or after the kept prefix", fmt.Sprintf("the reset truncates the ID buffer to its first %d bytes and relies on them being the constructor's prefix, but %s: the next request served by this pooled Store gets an ID that starts with bytes of this request", keep, strings.Join(uniq(bad), "; ")))
+		}
+	}
+
 	// ---- R6: the parameter names a Store carries are an alias of the matched route's own list (Params.K = node.names): a
 	// request may replace the alias but never write through it — that would change the route for every later request
 	{
